@@ -246,7 +246,12 @@ func (r *Runtime) builtinJSON_stringify(call FunctionCall) Value {
 			num = int64(i)
 			isNum = true
 		} else if f, ok := spaceValue.(valueFloat); ok {
-			num = int64(f)
+			// min(10, ToIntegerOrInfinity(space)): clamp first, int64(f) overflows for f >= 2^63
+			if float64(f) >= 10 {
+				num = 10
+			} else if float64(f) >= 1 {
+				num = int64(f)
+			}
 			isNum = true
 		}
 		if isNum {
